@@ -1,3 +1,4 @@
+import copy
 from typing import Dict, Type
 
 from conductor.parsing.validation import generate_type_validator
@@ -28,4 +29,7 @@ class RawTaskType:
         self._validator(args)
         if not TaskIdentifier.is_name_valid(args["name"]):
             raise InvalidTaskName(task_name=args["name"])
-        return {**args, "_full_type": self._full_type}
+        # Take a snapshot of the (validated) arguments. The lists and
+        # dictionaries belong to the COND file, which may go on to modify them
+        # (e.g., when it defines tasks in a loop).
+        return {**copy.deepcopy(args), "_full_type": self._full_type}
